@@ -222,6 +222,153 @@ def s5(run, tu):
     run.need(n_sites >= 1, 'parse_c_type.c: no look-ahead past the current token found (the lone-void test changed shape)')
 
 
+def _libc_strtoul_base0(text):
+    """ISO C strtoul(text, &end, 0) for text starting with a digit: (value, number of characters consumed)"""
+    hexd = '0123456789abcdefABCDEF'
+    if text[:1] == '0' and text[1:2] in ('x', 'X') and text[2:3] in hexd and text[2:3] != '':
+        i = 2
+        while i < len(text) and text[i] in hexd:
+            i += 1
+        return int(text[2:i], 16), i
+    if text[:1] == '0':
+        i = 1
+        while i < len(text) and text[i] in '01234567':
+            i += 1
+        return int(text[:i], 8), i
+    i = 0
+    while i < len(text) and text[i] in '0123456789':
+        i += 1
+    return int(text[:i], 10), i
+
+
+def s6(run, tu):
+    """array lengths spelled as decimal, octal or hexadecimal literals: both parsers accept the same spellings with the same value.
+    C side: the character classes, the extent of an integer token (one pass through the tokenizer branch and one loop iteration, by
+    constant propagation) and the `strtoul(p, &end, 0)` / `end == p + size` acceptance test; Python side: Parser._parse_constant walked
+    symbolically (the same walk as C09 L1) on one representative of every spelling class"""
+    import re
+    from . import c09
+    # (a) character classes, for all 256 values
+    cls = {}
+    for name in ('is_digit', 'is_hex_digit'):
+        g = cfg_of(tu, name)
+        acc = set()
+        for c in range(256):
+            def sub(a, e, _n='is_digit'):
+                v = a[0] if a else TOP
+                return Con(1 if isinstance(v, Con) and chr(v.v & 255) in '0123456789' and 'is_digit' in cls and (v.v & 255) in cls['is_digit'] else 0, 32, True) if isinstance(v, Con) else TOP
+            it = absint.Interp(g, {'x': Con(c if c < 128 else c - 256, 8, True)}, {'is_digit': sub}, const_vars={'x'}).run()
+            vals = set(it.returns.values())
+            if len(vals) != 1 or not isinstance(next(iter(vals)), Con):
+                raise AnalysisError('%s(%d): not decided by constant propagation' % (name, c))
+            if next(iter(vals)).v != 0:
+                acc.add(c)
+        cls[name] = acc
+    want = {'is_digit': set(map(ord, '0123456789')), 'is_hex_digit': set(map(ord, '0123456789abcdefABCDEF'))}
+    for name in want:
+        run.ob('S6/character-classes-of-a-number', name, 'accepts exactly %s' % ''.join(sorted(map(chr, want[name]))), cls[name] == want[name], tu.where(tu.func(name)),
+               'differs on %r' % ''.join(map(chr, sorted(cls[name] ^ want[name]))))
+    # (b) extent of an integer token
+    F = 'next_token'
+    g = cfg_of(tu, F)
+    kinds = token_values(tu)
+    start = [n for n in g.nodes if n.kind != 'cond' and n.ast is not None and stmt_text(n.ast).replace(' ', '') == 'tok->kind=TOK_INTEGER']
+    run.need(len(start) == 1, '%s: the branch that starts a number was not found' % F)
+    loop = [n for n in g.nodes if n.kind == 'cond' and 'is_hex_digit' in cx.render(n.ast) and 'tok->size' in cx.render(n.ast)]
+    run.need(len(loop) == 1, '%s: the loop that extends a number over hexadecimal digits was not found' % F)
+    loop = loop[0]
+    guard = [n for n in g.nodes if n.kind == 'cond' and cx.render(n.ast).replace(' ', '') == 'is_digit(*p)']
+    run.need(len(guard) == 1 and g.must_precede(start[0].id, [guard[0].id]), '%s: a number no longer starts where is_digit(*p) holds' % F)
+    hooks = {'is_hex_digit': lambda a, e: Con(1 if isinstance(a[0], Con) and (a[0].v & 255) in cls['is_hex_digit'] else 0, 32, True) if a and isinstance(a[0], Con) else TOP,
+             'is_digit': lambda a, e: Con(1 if isinstance(a[0], Con) and (a[0].v & 255) in cls['is_digit'] else 0, 32, True) if a and isinstance(a[0], Con) else TOP}
+    bad0 = []
+    for c1 in range(256):
+        env = {'p[1]': Con(c1 if c1 < 128 else c1 - 256, 8, True)}
+        it = absint.Interp(g, env, hooks, const_vars={'p[1]'})
+        it.run_from(start[0].id, env, {loop.id})
+        st = it.in_state.get(loop.id) or {}
+        v = st.get('tok->size')
+        wantsz = 2 if chr(c1) in 'xX' else 1
+        if not (isinstance(v, Con) and v.v == wantsz):
+            bad0.append((chr(c1), v))
+    run.ob('S6/number-token-starts-with-a-digit-and-an-optional-x', F, 'tok->size = 1, or 2 when the second character is x or X', not bad0, tu.where(start[0].ast),
+           'second character %r gives size %r' % bad0[0] if bad0 else '')
+    body = [t for t, l in loop.succ if l == 'T']
+    exits = [t for t, l in loop.succ if l == 'F']
+    run.need(len(body) == 1 and len(exits) == 1, '%s: number loop shape' % F)
+    badl = []
+    for k in (1, 2, 3, 7):
+        for c in range(256):
+            env = {'tok->size': Con(k, 64, False), 'p[%d]' % k: Con(c if c < 128 else c - 256, 8, True)}
+            it = absint.Interp(g, env, hooks, const_vars={'p[%d]' % k})
+            it.run_from(loop.id, env, {loop.id, exits[0]} if False else {exits[0]})
+            # one pass: either straight to the exit with the size unchanged, or back at the loop head with size + 1
+            st_exit = it.in_state.get(exits[0])
+            inhex = c in cls['is_hex_digit']
+            if inhex:
+                # the loop head is revisited with k+1 and then p[k+1] is unknown: both successors become reachable; the size at the exit is then not k
+                it2 = absint.Interp(g, env, hooks, const_vars={'p[%d]' % k})
+                it2.run_from(body[0], env, {loop.id})
+                v = (it2.in_state.get(loop.id) or {}).get('tok->size')
+                if not (isinstance(v, Con) and v.v == k + 1):
+                    badl.append((k, chr(c), v))
+            else:
+                v = (st_exit or {}).get('tok->size')
+                if not (isinstance(v, Con) and v.v == k):
+                    badl.append((k, chr(c), v))
+    run.ob('S6/number-token-extends-over-hexadecimal-digits-only', F, 'while (is_hex_digit(p[tok->size])) tok->size++', not badl, tu.where(loop.ast),
+           'size %d, next character %r: size becomes %r' % badl[0] if badl else '')
+    after = g.reach([exits[0]], include_start=True)
+    rets = [n for n in g.nodes if n.id in after and n.kind == 'return']
+    # (c) the acceptance test in parse_sequel
+    P = 'parse_sequel'
+    pg = cfg_of(tu, P)
+    pf = tu.func(P)
+    convs = [c for c in cx.calls_in(pf) if cx.callee_name(c) in ('strtoul', 'strtoull', '_strtoui64')]
+    run.need(len(convs) >= 2, '%s: the strtoul/strtoull calls on an integer token were not found' % P)
+    okc = all([cx.render(cx.strip(a, casts=True)).replace(' ', '') for a in cx.call_args(c)] == ['tok->p', '&endptr', '0'] for c in convs)
+    run.ob('S6/length-converted-by-strtoul-with-base-0', P, '; '.join(sorted({cx.render(c) for c in convs})), okc, tu.where(convs[0]))
+    test = [n for n in pg.nodes if n.kind == 'cond' and cx.render(n.ast).replace(' ', '') == 'endptr!=tok->p+tok->size']
+    okt = len(test) == 1 and any(l == 'T' and pg.nodes[t].kind == 'return' and 'parse_error' in cx.called_names(pg.nodes[t].ast) for t, l in test[0].succ)
+    run.ob('S6/whole-token-must-be-the-number', P, 'if (endptr != tok->p + tok->size) return parse_error(...)', okt, tu.where(test[0].ast) if test else tu.where(pf))
+    if bad0 or badl or not okc or not okt or any(cls[n_] != want[n_] for n_ in want):
+        return
+
+    def c_side(text):
+        ext = 2 if text[1:2] in ('x', 'X') else 1
+        while ext < len(text) and ord(text[ext]) in cls['is_hex_digit']:
+            ext += 1
+        if ext != len(text):
+            return None         # the rest would be another token: outside the classes compared here
+        val, used = _libc_strtoul_base0(text)
+        return ('accept', val) if used == ext else ('reject',)
+
+    cp = cffi_mod('cparser')
+    fn = cp.find('Parser._parse_constant')
+    modenv = sp.module_constants(cp)
+    reps = [('7', 'decimal'), ('10', 'decimal'), ('1234567890', 'decimal'), ('0', 'zero'), ('00', 'octal zero'), ('010', 'octal'), ('0777', 'octal'),
+            ('08', 'bad octal'), ('0179', 'bad octal'), ('0x1f', 'hex'), ('0X1F', 'hex, upper-case prefix'), ('0x1F', 'hex, upper-case digits'), ('0Xab', 'hex, upper-case prefix'),
+            ('0xABCdef', 'hex, mixed case'), ('0x0', 'hex zero'), ('0X0', 'hex zero, upper-case prefix'), ('12ab', 'decimal followed by letters'), ('0xfg'[:3], 'hex')]
+    for text, clsname in reps:
+        c = c_side(text)
+        run.need(c is not None, 'S6: representative %r is not one token' % text)
+        ev = sp.Evaluator({'isinstance': c09.h_isinstance, 'int': c09.h_int, 'ord': c09.h_ord})
+        env = dict(modenv)
+        env['exprnode'] = {'__class__': 'Constant', 'value': text, 'coord': {'line': 1}}
+        paths = ev.run(fn, env)
+        if len(paths) != 1:
+            raise AnalysisError('Parser._parse_constant: literal %r gives %d paths' % (text, len(paths)))
+        o = paths[0].outcome
+        if o is not None and o[0] == 'raise' and o[1] in c09.REJECT:
+            py = ('reject',)
+        elif o is not None and o[0] == 'return' and c09.value_of(o[1]) is not None:
+            py = ('accept', c09.value_of(o[1]))
+        else:
+            raise AnalysisError('Parser._parse_constant: literal %r: outcome %r not understood' % (text, o))
+        run.ob('S6/array-length-spellings-accepted-alike', 'Parser._parse_constant / parse_sequel', '[%s] (%s)' % (text, clsname), py == c, cp.where(fn),
+               'the in-line parser: %s; the C parser: %s' % (py, c))
+
+
 def check(run):
     run.technique = ('sibling decision tables: the specifier automaton of the C parser extracted by constant propagation over the CFG of parse_complete '
                      '(per state x token), the Python normalisation walked symbolically per specifier sequence; compared on all 2387 sequences')
@@ -280,5 +427,7 @@ def check(run):
                'decided: the specifier tables of the two parsers; NOT decided: declarators, qualifiers, arrays, function types, typedef and tag lookup; S4 decides that text which is not one type is rejected by the in-line parser too')
     s4(run)
     s5(run, tu)
+    s6(run, tu)
     run.min_instances('S3', 60)
     run.min_instances('S4', 6)
+    run.min_instances('S6', 20)
